@@ -222,6 +222,6 @@ CONTRACTS += [
         closure_vars={'self': 'self', 'method': 'method'},
         ensures={'subcache': 'c16_subcache', 'only_cache': 'c16_only_cache', 'compute': 'c16_compute'},
         loops={0: Loop('c16_inv', vars={'i': Int, 'arg': Str, 'parameter': SigParamV}, cells={'kwargs': Map(Str, Val)})},
-        canary='c16_canary', l0=['A-inspect', 'A-json', 'A-dict'], searchable=False,
+        canary='c16_canary', l0=['A-inspect', 'A-json', 'A-dict'], searchable=False, may_raise=['Opaque'],
     ),
 ]
